@@ -4,7 +4,7 @@ From Coq Require DecimalN DecimalFacts.
 From Slsk Require Import C09.Model.
 Open Scope N_scope.
 
-(* ---------------------------------------------------------------- refutations (finding F08, F09) *)
+(* ---------------------------------------------------------------- fixtures for examples *)
 Definition DL0 : path := [[98]; [100; 108]].                   (* b/dl *)
 Definition FS0 : fsys := [([[98]], KDir); ([[98]; [100; 108]], KDir)].
 Definition r_a_dotdot : str := [97; 92; 46; 46].               (* a\.. *)
@@ -21,40 +21,12 @@ Definition inside_statement : Prop :=
   forall ch fs remote dl, dl_ok dl -> In Default ch ->
     exists p f, chain fs remote ch dl = Some (p, f) /\ inside dl (p ++ [f]) /\ regular_name f.
 
-Lemma inside_refuted_name : exists ch fs remote dl p f, dl_ok dl /\ In Default ch /\
-  chain fs remote ch dl = Some (p, f) /\ ~ regular_name f /\ ~ inside dl (p ++ [f]).
-Proof.
-  exists [Default], FS0, r_a_dotdot, DL0, DL0, [46; 46].
-  split; [apply DL0_ok|]. split; [left; reflexivity|]. split; [vm_compute; reflexivity|]. split.
-  - intros (_ & _ & H & _). apply H. reflexivity.
-  - intros (rest & Hne & H). vm_compute in H. destruct rest; [congruence|discriminate].
-Qed.
-
-Lemma inside_refuted_dir : exists ch fs remote dl p f, dl_ok dl /\ In Default ch /\
-  chain fs remote ch dl = Some (p, f) /\ regular_name f /\ ~ inside dl (p ++ [f]).
-Proof.
-  exists [Default; KeepDir; NumDup], FS0, r_dotdot_x, DL0, (DL0 ++ [[46; 46]]), [120].
-  split; [apply DL0_ok|]. split; [left; reflexivity|]. split; [vm_compute; reflexivity|]. split.
-  - repeat split; try discriminate. intros c [<-|[]]. reflexivity.
-  - intros (rest & Hne & H). vm_compute in H. destruct rest; [discriminate|]. destruct rest; discriminate.
-Qed.
-
-Lemma inside_refuted_crash : exists ch fs remote dl, dl_ok dl /\ In Default ch /\ chain fs remote ch dl = None.
-Proof.
-  exists default_chain, FS0, r_seps, DL0. split; [apply DL0_ok|]. split; [left; reflexivity|]. vm_compute. reflexivity.
-Qed.
-
-Lemma inside_refuted : ~ inside_statement.
-Proof.
-  intros H. destruct inside_refuted_crash as (ch & fs & r & dl & H1 & H2 & H3).
-  destruct (H ch fs r dl H1 H2) as (p & f & E & _). congruence.
-Qed.
-
 (* two downloads of equally named files: both choose before either creates *)
 Definition rem2 (k : nat) : str := match k with O => [117; 92; 97] | _ => [118; 92; 97] end.     (* u\a , v\a *)
-Lemma distinct_active_refuted : exists evs,
-  distinct_paths (d_paths (drun default_chain DL0 rem2 (mkD FS0 []) evs)) = false.
-Proof. exists [Prepare 0; Prepare 1; Create 0; Create 1]. vm_compute. reflexivity. Qed.
+Lemma distinct_active_overlap_example :
+  distinct_paths (d_paths (drun default_chain DL0 rem2 (mkD FS0 []) [Prepare 0; Prepare 1; Create 0; Create 1])) = true /\
+  length (d_paths (drun default_chain DL0 rem2 (mkD FS0 []) [Prepare 0; Prepare 1; Create 0; Create 1])) = 2%nat.
+Proof. vm_compute. split; reflexivity. Qed.
 Lemma distinct_active_serial_example :
   distinct_paths (d_paths (drun default_chain DL0 rem2 (mkD FS0 []) [Prepare 0; Create 0; Prepare 1; Create 1])) = true.
 Proof. vm_compute. reflexivity. Qed.
@@ -81,12 +53,19 @@ Proof.
     + eapply IHs; [|eassumption]. intros x [<-|Hx]; [assumption|apply Hc; assumption].
 Qed.
 
-Lemma split_parts : forall s c, In c (split_remote_path s) -> c <> [] /\ nosep c.
+Lemma split_parts : forall s c, In c (split_remote_path s) -> regular_name c.
 Proof.
-  intros s c H. unfold split_remote_path in H. apply filter_In in H. destruct H as (H1 & H2). split.
-  - destruct c; [discriminate|discriminate].
+  intros s c H. unfold split_remote_path in H. apply filter_In in H. destruct H as (H1 & H2).
+  unfold keep_part in H2. apply andb_prop in H2. destruct H2 as (K1 & K2). apply andb_prop in K2. destruct K2 as (K2 & K3).
+  repeat split.
+  - destruct c; discriminate.
+  - intros E. subst c. discriminate.
+  - intros E. subst c. discriminate.
   - eapply split_at_seps_nosep; [|eassumption]. intros x [].
 Qed.
+
+Lemma unnamed_regular : regular_name UNNAMED.
+Proof. repeat split; try discriminate. intros c Hc. cbn in Hc. repeat (destruct Hc as [<-|Hc]; [reflexivity|]). destruct Hc. Qed.
 
 (* ---- normalisation of plain names *)
 Lemma regular_tests : forall c, regular_name c -> str_eqb c [] = false /\ str_eqb c dot = false /\ str_eqb c dotdot = false.
@@ -162,32 +141,32 @@ Qed.
 Definition good (dl : path) (seen : bool) (p : path) (f : str) : Prop :=
   (exists ds, p = dl ++ ds /\ Forall regular_name ds) /\ nosep f /\ (seen = true -> regular_name f).
 
-Lemma benign_last : forall parts, benign parts -> (forall c, In c parts -> c <> [] /\ nosep c) ->
-  exists l r, rev parts = l :: r /\ regular_name l /\ match r with c :: _ => regular_name c | [] => True end.
+Lemma rev_parts_regular : forall remote l r, rev (split_remote_path remote) = l :: r ->
+  regular_name l /\ match r with c :: _ => regular_name c | [] => True end.
 Proof.
-  intros parts Hb Hp. unfold benign in Hb. destruct (rev parts) as [|l r] eqn:E; [destruct Hb|].
-  exists l, r. split; [reflexivity|]. destruct Hb as (B1 & B2 & B3).
-  assert (Hl : In l parts) by (apply in_rev; rewrite E; left; reflexivity).
-  destruct (Hp l Hl) as (N1 & N2). split; [repeat split; assumption|].
-  destruct r as [|c r']; [exact I|]. destruct B3 as (B3 & B4).
-  assert (Hc : In c parts) by (apply in_rev; rewrite E; right; left; reflexivity).
-  destruct (Hp c Hc) as (M1 & M2). repeat split; assumption.
+  intros remote l r E. split.
+  - apply (split_parts remote). apply in_rev. rewrite E. left. reflexivity.
+  - destruct r as [|c r']; [exact I|]. apply (split_parts remote). apply in_rev. rewrite E. right. left. reflexivity.
 Qed.
 
-Lemma apply_good : forall fs remote dl st seen p f, benign (split_remote_path remote) -> good dl seen p f ->
+Lemma apply_good : forall fs remote dl st seen p f, good dl seen p f ->
   exists p' f', apply_strat fs remote st p f = Some (p', f') /\
     good dl (orb seen (match st with Default => true | _ => false end)) p' f'.
 Proof.
-  intros fs remote dl st seen p f Hb ((ds & -> & Hds) & Hn & Hr).
-  destruct (benign_last _ Hb (split_parts remote)) as (l & r & E & Rl & Rc).
-  destruct st; unfold apply_strat; rewrite ?E.
-  - exists (dl ++ ds), l. split; [reflexivity|]. rewrite orb_true_r. split; [exists ds; auto|]. split; [apply Rl|intros _; exact Rl].
-  - rewrite orb_false_r. destruct r as [|c r'].
+  intros fs remote dl st seen p f ((ds & -> & Hds) & Hn & Hr).
+  destruct st; unfold apply_strat.
+  - rewrite orb_true_r. destruct (rev (split_remote_path remote)) as [|l r] eqn:E.
+    + exists (dl ++ ds), UNNAMED. split; [reflexivity|]. split; [exists ds; auto|]. split; [apply unnamed_regular|intros _; exact unnamed_regular].
+    + destruct (rev_parts_regular _ _ _ E) as (Rl & _). exists (dl ++ ds), l. split; [reflexivity|].
+      split; [exists ds; auto|]. split; [apply Rl|intros _; exact Rl].
+  - rewrite orb_false_r. destruct (rev (split_remote_path remote)) as [|l r] eqn:E.
     + exists (dl ++ ds), f. split; [reflexivity|]. split; [exists ds; auto | split; assumption].
-    + destruct (starts_atat c || is_drive c).
+    + destruct (rev_parts_regular _ _ _ E) as (_ & Rc). destruct r as [|c r'].
       * exists (dl ++ ds), f. split; [reflexivity|]. split; [exists ds; auto | split; assumption].
-      * exists ((dl ++ ds) ++ [c]), f. split; [reflexivity|]. split; [|split; assumption].
-        exists (ds ++ [c]). split; [apply app_assoc_reverse|]. apply Forall_app. split; [assumption|constructor; [assumption|constructor]].
+      * destruct (starts_atat c || is_drive c).
+        -- exists (dl ++ ds), f. split; [reflexivity|]. split; [exists ds; auto | split; assumption].
+        -- exists ((dl ++ ds) ++ [c]), f. split; [reflexivity|]. split; [|split; assumption].
+           exists (ds ++ [c]). split; [apply app_assoc_reverse|]. apply Forall_app. split; [assumption|constructor; [assumption|constructor]].
   - rewrite orb_false_r. destruct (pexists fs ((dl ++ ds) ++ [f])) eqn:Ex.
     + destruct (splitext f) as [stem ext] eqn:Es. destruct (pexists_listdir _ _ _ Ex) as (names & ->).
       eexists _, _. split; [reflexivity|]. pose proof (number_name_regular f stem ext (next_index (indices stem ext names)) Hn Es) as R.
@@ -195,29 +174,37 @@ Proof.
     + exists (dl ++ ds), f. split; [reflexivity|]. split; [exists ds; auto | split; assumption].
 Qed.
 
-Lemma chain_good : forall fs remote dl ch seen p f, benign (split_remote_path remote) -> good dl seen p f ->
+Lemma chain_good : forall fs remote dl ch seen p f, good dl seen p f ->
   exists p' f', chain_from fs remote ch p f = Some (p', f') /\
     good dl (orb seen (existsb (fun st => match st with Default => true | _ => false end) ch)) p' f'.
 Proof.
-  induction ch; intros seen p f Hb Hg; cbn [chain_from existsb].
+  induction ch; intros seen p f Hg; cbn [chain_from existsb].
   - exists p, f. rewrite orb_false_r. split; [reflexivity|assumption].
-  - destruct (apply_good fs remote dl a seen p f Hb Hg) as (p1 & f1 & E1 & G1). rewrite E1.
-    destruct (IHch _ p1 f1 Hb G1) as (p2 & f2 & E2 & G2). exists p2, f2. split; [assumption|].
+  - destruct (apply_good fs remote dl a seen p f Hg) as (p1 & f1 & E1 & G1). rewrite E1.
+    destruct (IHch _ p1 f1 G1) as (p2 & f2 & E2 & G2). exists p2, f2. split; [assumption|].
     rewrite orb_assoc. exact G2.
 Qed.
 
-Lemma inside_partial : forall ch fs remote dl, dl_ok dl -> In Default ch -> benign (split_remote_path remote) ->
-  exists p f, chain fs remote ch dl = Some (p, f) /\ inside dl (p ++ [f]) /\ regular_name f.
+Lemma good_init : forall dl, good dl false dl [].
+Proof. intros. split; [exists []; split; [symmetry; apply app_nil_r|constructor]|]. split; [intros c []|discriminate]. Qed.
+
+Lemma inside_full : inside_statement.
 Proof.
-  intros ch fs remote dl Hdl Hin Hb. unfold chain.
-  assert (G0 : good dl false dl []).
-  { split; [exists []; split; [symmetry; apply app_nil_r|constructor]|]. split; [intros c []|discriminate]. }
-  destruct (chain_good fs remote dl ch false dl [] Hb G0) as (p & f & E & ((ds & -> & Hds) & Hn & Hr)).
+  intros ch fs remote dl Hdl Hin. unfold chain.
+  destruct (chain_good fs remote dl ch false dl [] (good_init dl)) as (p & f & E & ((ds & -> & Hds) & Hn & Hr)).
   exists (dl ++ ds), f. split; [assumption|].
   assert (Hs : existsb (fun st => match st with Default => true | _ => false end) ch = true).
   { apply existsb_exists. exists Default. split; [assumption|reflexivity]. }
   rewrite Hs in Hr. cbn in Hr. specialize (Hr eq_refl). split; [apply inside_regular; assumption|assumption].
 Qed.
+
+(* every chain (with or without Default) yields a result: nothing raises; directories stay below dl *)
+Lemma chain_total : forall ch fs remote dl, exists p f ds, chain fs remote ch dl = Some (p, f) /\ p = dl ++ ds /\ Forall regular_name ds /\ nosep f.
+Proof.
+  intros. unfold chain. destruct (chain_good fs remote dl ch false dl [] (good_init dl)) as (p & f & E & ((ds & -> & Hds) & Hn & _)).
+  exists (dl ++ ds), f, ds. auto.
+Qed.
+
 
 (* ---------------------------------------------------------------- fresh *)
 Lemma path_eqb_eq : forall a b, path_eqb a b = true <-> a = b.
@@ -359,3 +346,66 @@ Proof. exists (FS0 ++ [(DL0 ++ [[97]], KFile)]), [97], DL0, DL0, [97]. split; vm
 Lemma distinct_from_created : forall ch fs remote dl p f p' f',
   chain fs remote (ch ++ [NumDup]) dl = Some (p, f) -> pexists fs (p' ++ [f']) = true -> p ++ [f] <> p' ++ [f'].
 Proof. intros ch fs remote dl p f p' f' H Hex E. apply fresh in H. rewrite E in H. congruence. Qed.
+
+(* ---------------------------------------------------------------- distinct paths over whole schedules *)
+Lemma lookup_nil : forall fs, lookup fs [] = Some KDir.
+Proof. destruct fs; reflexivity. Qed.
+
+Lemma lookup_app : forall fs e p k, lookup fs p = Some k -> lookup (fs ++ e) p = Some k.
+Proof.
+  intros fs e p k H. destruct p as [|c p']; [rewrite lookup_nil in *; exact H|].
+  induction fs as [|[q k0] r IH]; [discriminate|].
+  cbn [app lookup] in *. destruct (path_eqb q (c :: p')); [exact H|]. apply IH. exact H.
+Qed.
+
+Lemma resolve_app_fs : forall fs e comps cur q, resolve fs cur comps = Some q -> resolve (fs ++ e) cur comps = Some q.
+Proof.
+  induction comps; intros cur q H; cbn [resolve] in *; [exact H|].
+  destruct (lookup fs cur) as [[|]|] eqn:L; try discriminate. rewrite (lookup_app _ e _ _ L).
+  destruct (str_eqb a [] || str_eqb a dot); [apply IHcomps; exact H|]. destruct (str_eqb a dotdot); apply IHcomps; exact H.
+Qed.
+
+Lemma pexists_app : forall fs e p, pexists fs p = true -> pexists (fs ++ e) p = true.
+Proof.
+  intros fs e p H. unfold pexists in *. destruct (resolve fs [] p) as [q|] eqn:R; [|discriminate].
+  rewrite (resolve_app_fs _ e _ _ _ R). destruct (lookup fs q) eqn:L; [|discriminate]. rewrite (lookup_app _ e _ _ L). reflexivity.
+Qed.
+
+Lemma mkdirs_ext : forall comps fs cur, exists e, mkdirs fs cur comps = fs ++ e.
+Proof.
+  induction comps; intros fs cur; cbn [mkdirs]; [exists []; symmetry; apply app_nil_r|].
+  destruct (lookup fs (cur ++ [a])); [apply IHcomps|].
+  destruct (IHcomps (fs ++ [(cur ++ [a], KDir)]) (cur ++ [a])) as (e & ->). eexists. rewrite <- app_assoc. reflexivity.
+Qed.
+
+Lemma create_file_ext : forall fs p f, exists e, create_file fs p f = fs ++ e.
+Proof.
+  intros. unfold create_file. destruct (resolve fs [] (p ++ [f])) as [q|]; [|exists []; symmetry; apply app_nil_r].
+  destruct (lookup fs q); [exists []; symmetry; apply app_nil_r|eexists; reflexivity].
+Qed.
+
+Definition dinv (s : dstate) : Prop :=
+  (forall x, In x (d_paths s) -> pexists (d_fs s) (joined x) = true) /\ NoDup (map joined (d_paths s)).
+
+Lemma dstep_dinv : forall ch dl remotes s e, dinv s -> dinv (dstep (ch ++ [NumDup]) dl remotes s e).
+Proof.
+  intros ch dl remotes s e (H1 & H2). destruct e as [k|k]; cbn [dstep].
+  - destruct (find_path (d_paths s) k); [split; assumption|].
+    destruct (chain (d_fs s) (remotes k) (ch ++ [NumDup]) dl) as [[p f]|] eqn:E; [|split; assumption].
+    destruct (mkdirs_ext (norm p) (d_fs s) []) as (e1 & E1). rewrite E1.
+    destruct (create_file_ext (d_fs s ++ e1) p f) as (e2 & E2). rewrite E2. rewrite <- app_assoc.
+    destruct (pexists (d_fs s ++ e1 ++ e2) (p ++ [f])) eqn:Ex; cbn [d_fs d_paths].
+    + split.
+      * intros x [<-|Hx]; [exact Ex|]. apply pexists_app. auto.
+      * cbn [map]. constructor; [|assumption]. intros Hin. apply in_map_iff in Hin. destruct Hin as (x & Ex' & Hx).
+        apply fresh in E. specialize (H1 x Hx). unfold joined in *. cbn [fst snd] in *. rewrite Ex' in H1. congruence.
+    + split; [intros x Hx; apply pexists_app; auto|assumption].
+  - destruct (find_path (d_paths s) k) as [[p f]|]; [|split; assumption]. cbn [d_fs d_paths].
+    destruct (create_file_ext (d_fs s) p f) as (e2 & ->). split; [intros x Hx; apply pexists_app; auto|assumption].
+Qed.
+
+Lemma distinct_active : forall ch dl remotes evs s, dinv s -> dinv (drun (ch ++ [NumDup]) dl remotes s evs).
+Proof. induction evs; intros s H; [exact H|]. cbn [drun fold_left]. apply IHevs. apply dstep_dinv. exact H. Qed.
+
+Lemma dinv_empty : forall fs, dinv (mkD fs []).
+Proof. intros. split; [intros x []|constructor]. Qed.
